@@ -1250,11 +1250,21 @@ func (c *Curve[B, S]) scalarMulFakeGLV(Q *AffinePoint[B], s *emulated.Element[S]
 		panic(err)
 	}
 
-	var selector1 frontend.Variable
+	var selector1, isZeroScalar, isOne, isMinusOne, isPlusMinusOne frontend.Variable
 	_s := s
+	Qin := Q
 	if cfg.CompleteArithmetic {
-		selector1 = c.scalarApi.IsZero(s)
-		_s = c.scalarApi.Select(selector1, c.scalarApi.One(), s)
+		// s=0 and s=±1 are handled apart: for s=±1 the hinted point is ±Q and the
+		// incomplete formulae below would divide by zero on Q+R. As for s=0 we run
+		// the computation on s=1 and R=(0,0), by-pass the final check and compute
+		// the result in-circuit.
+		scalarOne := c.scalarApi.One()
+		isZeroScalar = c.scalarApi.IsZero(s)
+		isOne = c.scalarApi.IsZero(c.scalarApi.Sub(s, scalarOne))
+		isMinusOne = c.scalarApi.IsZero(c.scalarApi.Add(s, scalarOne))
+		isPlusMinusOne = c.api.Or(isOne, isMinusOne)
+		selector1 = c.api.Or(isZeroScalar, isPlusMinusOne)
+		_s = c.scalarApi.Select(selector1, scalarOne, s)
 	}
 
 	// First we find the sub-salars s1, s2 s.t. s1 + s2*s = 0 mod r and s1, s2 < sqrt(r).
@@ -1301,6 +1311,9 @@ func (c *Curve[B, S]) scalarMulFakeGLV(Q *AffinePoint[B], s *emulated.Element[S]
 		// if Q=(0,0) we assign a dummy (1,1) to Q and R and continue
 		selector2 = c.api.And(c.baseApi.IsZero(&Q.X), c.baseApi.IsZero(&Q.Y))
 		Q = c.Select(selector2, dummy, Q)
+		// s=±1: continue with R=(0,0) as in the s=0 case
+		r0 = c.baseApi.Select(isPlusMinusOne, c.baseApi.Zero(), r0)
+		r1 = c.baseApi.Select(isPlusMinusOne, c.baseApi.Zero(), r1)
 		r0 = c.baseApi.Select(selector2, c.baseApi.Zero(), r0)
 		r1 = c.baseApi.Select(selector2, &dummy.Y, r1)
 	}
@@ -1506,14 +1519,14 @@ func (c *Curve[B, S]) scalarMulFakeGLV(Q *AffinePoint[B], s *emulated.Element[S]
 	c.AssertIsEqual(Acc, tableR[2])
 
 	if cfg.CompleteArithmetic {
-		// when s=0 or Q=(0,0) the check above is by-passed and the result is
-		// (0,0): it must not be left to the hint.
+		// in the edge cases the check above is by-passed, so the result must not
+		// be left to the hint: it is (0,0) when s=0 or Q=(0,0), Q when s=1 and
+		// -Q when s=-1.
 		zero := c.baseApi.Zero()
-		isEdge := c.api.Or(selector1, selector2)
-		return &AffinePoint[B]{
-			X: *c.baseApi.Select(isEdge, zero, R[0]),
-			Y: *c.baseApi.Select(isEdge, zero, R[1]),
-		}
+		res := c.Select(isMinusOne, c.Neg(Qin), &AffinePoint[B]{X: *R[0], Y: *R[1]})
+		res = c.Select(isOne, Qin, res)
+		res = c.Select(c.api.Or(isZeroScalar, selector2), &AffinePoint[B]{X: *zero, Y: *zero}, res)
+		return res
 	}
 	return &AffinePoint[B]{
 		X: *R[0],
